@@ -616,6 +616,8 @@ def run(ctx, build):
                         schedule='random bursts, then round-robin drain', compared='event trace + final state'))
         # 2. random programs x random schedules
         nruns = 70000 if ctx.thorough else 3000
+        if getattr(ctx, 'lock_runs', None):
+            nruns = ctx.lock_runs            # a reduced exploration run from the checks of properties that rest on the lock (C07, C14)
         if getattr(ctx, 'widen', False):
             nruns = max(nruns, 8000)
         for k in range(nruns):
